@@ -56,6 +56,11 @@ class Leave(Exception):
     pass
 
 
+class LeaveBase(BaseException):
+    """a non-Exception way out of the portal's body (KeyboardInterrupt, SystemExit, a
+    cancellation ...): remaining tasks are cancelled just the same"""
+
+
 class FalsyValue:
     """return / started() values whose truth value is False are values like any other"""
 
@@ -104,7 +109,8 @@ def gen_case(rng: random.Random, cfg: str) -> dict:
                                 "stop_then_cancel"]),
             "stop_after": rng.randint(0, max(0, len(gated))),
             "delays": [rng.choice([0, 0.0005, 0.001, 0.002]) for _ in range(len(gated) + 4)],
-            "inject_seed": rng.randrange(1 << 30)}  # fmt: skip
+            "inject_seed": rng.randrange(1 << 30),
+            "leave_with": rng.choice(["Exception", "BaseException"])}  # fmt: skip
 
 
 def execute(case: dict) -> dict:
@@ -375,7 +381,22 @@ def execute(case: dict) -> dict:
                         out["nontrivial"] = True
 
                     mon.ev("exit_begin", None, "exception")
-                    raise Leave
+
+                    def unstick() -> None:
+                        # bounded progress: an exit by exception cancels what is left; if
+                        # it has not come back after 6 s it is waiting for the tasks (whose
+                        # gates are shut) - note that, then open the gates to get out
+                        t0 = time.monotonic()
+                        while ("exit_end", None) not in mon.first and time.monotonic() - t0 < 6:
+                            time.sleep(0.005)
+
+                        if ("exit_end", None) not in mon.first:
+                            mon.ev("exit_stuck")
+                            for g in gates.values():
+                                g.set()
+
+                    threading.Thread(target=unstick, daemon=True).start()
+                    raise LeaveBase if case.get("leave_with") == "BaseException" else Leave
 
                 cond.start()
                 if case["exit"] == "normal" and random.Random(case["inject_seed"]).random() < 0.5:
@@ -393,7 +414,7 @@ def execute(case: dict) -> dict:
                     out["nontrivial"] = True
 
                 mon.ev("exit_begin", None, case["exit"])
-        except Leave:
+        except (Leave, LeaveBase):
             pass
 
         mon.ev("exit_end")
@@ -522,6 +543,10 @@ def execute(case: dict) -> dict:
                 out["inconclusive"] = "cancelled task did not end within 5 s but the loop was not running either"
         elif how == "cancelled" and case["exit"] not in ("exception", "stop_cancel", "stop_then_cancel"):
             viol.append(("task-cancelled-although-its-future-was-not", {"cid": cid, "kind": kind}))
+
+    if ("exit_stuck", None) in mon.first:
+        viol.append(("portal-exit-by-exception-waits-for-the-tasks-instead-of-cancelling-them",
+                     {"leave_with": case.get("leave_with", "Exception")}))  # fmt: skip
 
     nd2 = [e for e in mon.log if e[1] == "stop2_did_not_cancel"]
     if nd2 and nd2[0][4] is True:
